@@ -409,7 +409,7 @@ def main(tier, seed, replay=None):
 
     # 1. design level: the algorithm as it is in the tree refines the spec
     fixed = tlc.run("MC_HttpFile", IMPL_CFG.format(
-        maxlen=6 if tier == "quick" else 9,
+        maxlen=6 if tier == "quick" else 8,
         depth=4 if tier == "quick" else 5, f="TRUE"), timeout=1500,
         coverage=(tier == "thorough"))
     ev.add_tlc("MC_HttpFile (HttpFileImpl => HttpFileSpec, repaired flags)",
